@@ -164,11 +164,21 @@ ME = 0.5109989461
 MMU = 105.6583745
 
 
+MATS = {0: ("Ar", 188e-6, 1e-5 * 18 ** 2), 1: ("H", 19.2e-6, 1e-5), 2: ("C", 81e-6, 1e-5 * 36), 3: ("Pb", 823e-6, 1e-5 * 82 ** 2)}
+URBAN_BRANCH = {0: "no-excitation(max_energy<=I)", 1: "no-excitation(w<=logI)", 2: "single-level", 3: "two-level"}
+
+
+def energy_for_tmb(tmb, mass):
+    """kinetic energy with 2 m_e beta^2 gamma^2 = tmb"""
+    bg2 = tmb / (2 * ME)
+    return mass * (math.sqrt(1 + bg2) - 1) if bg2 > 1e-6 else mass * bg2 / 2
+
+
 def gen_eloss_cases(ctx, n):
     r = ctx.rng
     cases = []
     for i in range(n):
-        c = i % 6
+        c = i % 8
         if c == 0:
             mean = logu(r, -4, 1)
             sd = mean * r.choice([logu(r, -2, 0.5), 0.25, 0.5, 2.0])
@@ -177,8 +187,27 @@ def gen_eloss_cases(ctx, n):
             mean = logu(r, -4, 1)
             var = mean * mean * r.choice([logu(r, -2, 1.5), 1.0, 0.25])
             cases.append(("gammad", [mean, var], nz(gen_u(r, 80, extremes=False))))
+        elif c in (2, 3):
+            # direct Urban constructor, aimed at each excitation branch and both width-correction branches
+            mat = r.choice([0, 0, 1, 2, 3])
+            _, I, E2 = MATS[mat]
+            br = r.choice([0, 1, 2, 3, 2, 3])
+            bsq = r.choice([logu(r, -6, -0.01), 0.5, 0.99])
+            lo, hi = (I * 1.0001, E2 * 0.9999) if E2 > I else (I, I)
+            if br == 1:
+                tmb = I * math.exp(bsq) * r.choice([1.0 - 1e-9, logu(r, -2, -0.001), 0.5])
+            elif br == 2 and E2 > I * 1.001:
+                tmb = math.exp(bsq) * r.choice([r.uniform(lo, hi), lo * (1 + 1e-9), hi * (1 - 1e-9)])
+            else:
+                tmb = math.exp(bsq) * max(E2, I) * r.choice([1 + 1e-9, logu(r, 0.001, 4), 2.0])
+            max_e = I * r.choice([0.5, 1 - 1e-9]) if br == 0 else max(I * r.choice([1 + 1e-9, logu(r, 0.01, 3)]), 1.1e-5)
+            max_e = max(max_e, 1.1e-5)
+            # mean loss: few / many excitations (width correction threshold 42, fast sampling threshold 8)
+            mean = max_e * r.choice([logu(r, -1, 1), logu(r, 1, 3.5)]) if br else logu(r, -5, -2)
+            cases.append(("urbanctor", [mat, mean, max_e, tmb, bsq], nz(gen_u(r, 500, extremes=False))))
         else:
-            if c in (2, 3):
+            mat = r.choice([0, 0, 0, 1, 2, 3])
+            if c in (4, 5) and mat == 0:
                 # aimed at the heavy-particle gamma / Gaussian models: mean loss >= 10 Tmax, Tmax below the cut,
                 # step chosen so that mean^2 / (4 Bohr variance) straddles 1
                 energy = logu(r, -2, 1.5)
@@ -191,21 +220,30 @@ def gen_eloss_cases(ctx, n):
                 ratio = logu(r, -1.5, 1.5)
                 step = mean_loss ** 2 / (4 * ratio * 2.764 * min(cut, tmax) * (1 / b2 - 0.5))
                 if mean_loss > 1e-5 and 1e-9 < step < 1e4:
-                    cases.append(("eloss", [1, energy, mean_loss, step, cut], nz(gen_u(r, 400, extremes=False))))
+                    cases.append(("eloss", [1, 0, energy, mean_loss, step, cut], nz(gen_u(r, 400, extremes=False))))
                     continue
             pid = r.choice([0, 1, 1])
-            energy = logu(r, -3, 2) if pid == 0 else logu(r, -2, 4)
-            mean_loss = r.choice([logu(r, -6, 0), energy * logu(r, -4, -0.5), 1e-5 * (1 + r.choice([-1, 1]) * logu(r, -12, -1))])
+            mass = ME if pid == 0 else MMU
+            _, I, E2 = MATS[mat]
+            if c == 6 and E2 > I * 1.01:
+                # slow projectile: 2 m_e beta^2 gamma^2 between I and E_2 (single-level excitation branch)
+                energy = energy_for_tmb(r.uniform(I * (8.5 if pid == 0 else 1.2), E2 * 0.98) if E2 * 0.98 > I * (8.5 if pid == 0 else 1.2) else r.uniform(I, E2), mass)
+            else:
+                energy = logu(r, -3, 2) if pid == 0 else logu(r, -2, 4)
+            mean_loss = r.choice([logu(r, -6, 0), energy * logu(r, -4, -0.5), 1e-5 * (1 + r.choice([-1, 1]) * logu(r, -12, -1)),
+                                  logu(r, -5, -3.5)])
             step = logu(r, -6, 1)
             cut = r.choice([1e-3, logu(r, -5.5, 0)])
-            cases.append(("eloss", [pid, energy, mean_loss, step, cut], nz(gen_u(r, 400, extremes=False))))
+            cases.append(("eloss", [pid, mat, energy, mean_loss, step, cut], nz(gen_u(r, 400, extremes=False))))
     return cases
 
 
 def eloss_line(c):
     k, p, u = c
     if k == "eloss":
-        return "eloss %d %s %d %s" % (p[0], " ".join(float(x).hex() for x in p[1:]), len(u), " ".join(float(x).hex() for x in u))
+        return "eloss %d %d %s %d %s" % (p[0], p[1], " ".join(float(x).hex() for x in p[2:]), len(u), " ".join(float(x).hex() for x in u))
+    if k == "urbanctor":
+        return "urbanctor %d %s %d %s" % (p[0], " ".join(float(x).hex() for x in p[1:]), len(u), " ".join(float(x).hex() for x in u))
     return "%s %s %d %s" % (k, " ".join(float(x).hex() for x in p), len(u), " ".join(float(x).hex() for x in u))
 
 
@@ -227,12 +265,24 @@ def run_eloss(ctx, proofs_ok):
         if k in ("gauss", "gammad"):
             impl = None if tok[0] == "exhausted" else ([fx(tok[2])] + ([fx(tok[3])] if k == "gauss" else []), int(tok[1]))
             exprs.append(("run_elgauss %s %s %s" if k == "gauss" else "run_elgamma %s %s %s") % (hexf(p[0]), hexf(p[1]), fl(u)))
-            meta.append((k, p, u, impl, None))
+            meta.append((k, p, u, impl, None, None))
+            continue
+        if k == "urbanctor":
+            consumed, loss = int(tok[1]), fx(tok[2])
+            f = [fx(t) for t in tok[3:]]
+            matp, state = f[0:8], f[8:15]
+            mat, mean, max_e, tmb, bsq = p
+            ctor = "run_elurban_ctor %s %s %s %s %s" % (" ".join(hexf(x) for x in matp), hexf(mean), hexf(max_e), hexf(tmb), hexf(bsq))
+            smp = "run_elurban %s %s" % (" ".join(hexf(x) for x in state), fl(u))
+            exprs.append("(3%%nat, %s, %s)" % (ctor, smp))
+            impl = None if consumed < 0 else ([loss], consumed)
+            meta.append((k, p, u, impl, 3, {"state": state, "mean": mean, "matp": matp}))
             continue
         model, consumed, loss = int(tok[1]), int(tok[2]), fx(tok[3])
         f = [fx(t) for t in tok[4:]]
         mean, max_e, beta_sq, bohr, tmb, gam, mass = f[:7]
-        pid, energy, mean_loss, step, cut = p
+        matp = f[7:15]
+        pid, mat, energy, mean_loss, step, cut = p
         if pid == 0:
             mt, mr = 0.5 * energy, 1.0
         else:
@@ -241,32 +291,64 @@ def run_eloss(ctx, proofs_ok):
             mt = tmb_py / (1 + mr * (2 * gam + mr))
         me_sel = max_e if model != 0 else min(cut, mt)
         sel = "run_elmodel %s %s %s %s %s" % (hexf(mean_loss), hexf(me_sel), hexf(mt), hexf(mr), hexf(bohr))
+        extra = None
+        ctor = "([], 9%nat)"
         if model == 1:
             smp = "run_elgamma %s %s %s" % (hexf(mean), hexf(bohr), fl(u))
         elif model == 2:
             smp = "run_elgauss1 %s %s %s" % (hexf(mean), hexf(bohr), fl(u))
         elif model == 3:
-            smp = "run_elurban %s %s" % (" ".join(hexf(x) for x in f[7:14]), fl(u))
+            state = f[15:22]
+            smp = "run_elurban %s %s" % (" ".join(hexf(x) for x in state), fl(u))
+            ctor = "run_elurban_ctor %s %s %s %s %s" % (" ".join(hexf(x) for x in matp), hexf(mean), hexf(max_e), hexf(tmb), hexf(beta_sq))
+            extra = {"state": state, "mean": mean, "matp": matp}
         else:
             smp = "Some ([%s], 0%%nat)" % hexf(mean_loss)
-        exprs.append("(%s, %s)" % (sel, smp))
+        exprs.append("(%s, %s, %s)" % (sel, ctor, smp))
         impl = None if consumed < 0 else ([loss], consumed)
-        meta.append((k, p, u, impl, model))
+        meta.append((k, p, u, impl, model, extra))
     mvals = ctx.coq_eval("eloss", PRE, exprs, chunk=max(20, len(exprs) // 16 + 1), timeout=1200)
     ndis = 0
     names = {0: "none", 1: "gamma", 2: "gaussian", 3: "urban"}
-    for (k, p, u, impl, model), mv in zip(meta, mvals):
-        if k == "eloss":
-            msel, mv = mv
-            ctx.count("eloss-model:" + names[model])
-            if msel != model:
-                tight = abs(p[2] - 1e-5) < 1e-14
-                if tight:
-                    ctx.count("knife-edge-accepted")
-                else:
+    for (k, p, u, impl, model, extra), mv in zip(meta, mvals):
+        if k in ("eloss", "urbanctor"):
+            msel, mctor, mv = mv
+            if k == "eloss":
+                ctx.count("eloss-model:" + names[model])
+                if msel != model:
+                    tight = abs(p[3] - 1e-5) < 1e-14
+                    if tight:
+                        ctx.count("knife-edge-accepted")
+                    else:
+                        ndis += 1
+                        ctx.violation("correspondence", "EnergyLossHelper picks model %s, the model of it %s" % (names[model], names.get(msel)),
+                                      {"params": p, "impl_model": model, "coq_model": msel}, no_input=True)
+                        continue
+            if extra is not None:
+                # --- Urban constructor: (a) the property's own oracle on the implementation's parameters:
+                # their first moments add up to the requested mean (theorem C15_urban_params_mean)
+                st, mean = extra["state"], extra["mean"]
+                emax, scal, be0, be1, xs0, xs1, xsi = st
+                e0 = 1e-5
+                ion_mean = e0 * emax * math.log(emax / e0) / (emax - e0)
+                mom = scal * (xs0 * be0 + xs1 * be1 + xsi * ion_mean)
+                mstate, mbr = list(mctor[0]), mctor[1]
+                ctx.count("urban-ctor-branch:" + URBAN_BRANCH.get(mbr, "?"))
+                ctx.count("urban-width-correction:" + ("none" if mbr < 2 else "xs0<42" if xs0 * (be0 / extra["matp"][2]) < 42 else "xs0>=42"))
+                ctx.count("urban-sampling:exc0=%s,ion=%s" % ("fast" if xs0 > 8 else "poisson" if xs0 > 0 else "off", "fast" if xsi > 8 else "poisson"))
+                if not close(mom, mean, rtol=1e-9):
+                    ctx.violation("urban-mean", "Urban model parameters do not reproduce the requested mean energy loss: "
+                                  "scaling*(xs0*E0 + xs1*E1 + xs_ion*<E_ion>) = %r, requested %r (%+.2f%%), branch %s"
+                                  % (mom, mean, 100 * (mom / mean - 1), URBAN_BRANCH.get(mbr)),
+                                  {"kind": k, "params": p, "material_inputs": extra["matp"], "impl_state": st, "model_state": mstate,
+                                   "first_moment": mom, "requested_mean": mean, "branch": URBAN_BRANCH.get(mbr)})
+                    continue
+                # (b) constructor differential
+                if not close(st, mstate, rtol=1e-9, atol=1e-300):
                     ndis += 1
-                    ctx.violation("correspondence", "EnergyLossHelper picks model %s, the model of it %s" % (names[model], names.get(msel)),
-                                  {"params": p, "impl_model": model, "coq_model": msel}, no_input=True)
+                    if ndis <= 5:
+                        ctx.violation("correspondence", "Urban constructor: model and implementation differ (branch %s)" % URBAN_BRANCH.get(mbr),
+                                      {"kind": k, "params": p, "material_inputs": extra["matp"], "impl_state": st, "model_state": mstate}, no_input=True)
                     continue
         ctx.count("kind:" + k)
         mdl = None if mv is None else (list(mv[0]), mv[1])
@@ -284,7 +366,7 @@ def run_eloss(ctx, proofs_ok):
                 bad = "Gaussian energy loss outside (0, 2 mean]"
             # (gamma: > 0 in exact arithmetic; in binary64 u^(1/k) underflows to 0 for k = mean^2/var << 1,
             #  so 0 is accepted -- see NOTES.md)
-            elif model == 2 and not (0 < x <= 2 * p[2]):
+            elif model == 2 and not (0 < x <= 2 * p[3]):
                 bad = "Gaussian energy loss outside (0, 2 mean]"
             if bad:
                 ctx.violation("support", bad, {"kind": k, "params": p, "stream": u[:impl[1]], "impl": impl, "model": mdl})
@@ -294,7 +376,7 @@ def run_eloss(ctx, proofs_ok):
             if ndis <= 5:
                 ctx.violation("correspondence", "model and implementation differ for %s%s" % (k, "" if model is None else ":" + names[model]),
                               {"kind": k, "params": p, "stream": u[:24], "impl": impl, "model": mdl}, no_input=True)
-    return len(cases)
+    return len(cases), exe
 
 
 # ---------------------------------------------------------------------------
@@ -356,6 +438,103 @@ def chi2_stat(counts, probs, n):
         obs[-1] += o; exp[-1] += e
     st = sum((a - b) ** 2 / b for a, b in zip(obs, exp))
     return st, max(1, len(exp) - 1)
+
+
+
+# ---------------------------------------------------------------------------
+# Law oracle: the property's own statement ("the empirical distribution matches the
+# analytic law within statistical resolution") applied to the implementation at ONE
+# parameter point: N samples on a fixed pseudo-random stream, KS distance against the
+# analytic CDF and a z-test of the mean, both at the ~1e-6 level (never a false alarm;
+# deterministic for a given seed).  Used (a) at the branch boundaries of the samplers
+# in every run, (b) to turn a model/implementation disagreement into a concrete input.
+def analytic_law(kind, p):
+    """(cdf, mean, stddev, draws per sample) or None"""
+    if kind == "gamma":
+        al, be = p
+        return (lambda x: gammainc_p(al, x / be)), al * be, math.sqrt(al) * be, 10
+    if kind == "exponential":
+        return (lambda x: 1 - math.exp(-p[0] * x)), 1 / p[0], 1 / p[0], 1
+    if kind == "radial":
+        return (lambda x: (x / p[0]) ** 3), 0.75 * p[0], p[0] * math.sqrt(3 / 80), 1
+    if kind == "uniform":
+        a, b = p
+        return (lambda x: (x - a) / (b - a)), 0.5 * (a + b), (b - a) / math.sqrt(12), 1
+    if kind == "reciprocal":
+        a, b = p
+        L = math.log(b / a)
+        m1 = (b - a) / L
+        m2 = (b * b - a * a) / (2 * L)
+        return (lambda x: math.log(x / a) / L), m1, math.sqrt(max(m2 - m1 * m1, 0)), 1
+    if kind == "gammadN":      # EnergyLossGammaDistribution(mean, var)
+        mean, var = p
+        k = mean * mean / var
+        return (lambda x: gammainc_p(k, x * k / mean)), mean, math.sqrt(var), 10
+    return None
+
+
+def law_oracle(ctx, exe, kind, p, n=4000, tag=0):
+    law = analytic_law(kind, p)
+    if law is None:
+        return None
+    cdf, mean, sd, per = law
+    rr = __import__("random").Random(ctx.seed * 7919 + tag)
+    u = [max(rr.random(), 2.0 ** -60) for _ in range(per * n + 64)]
+    if kind == "gammadN":
+        inp = "gammadN %s %d %d %s\n" % (" ".join(float(x).hex() for x in p), n, len(u), " ".join(float(x).hex() for x in u))
+        rc, out = ctx.run_harness(exe, input=inp, timeout=300)
+        xs = [float.fromhex(t) for t in out.split()[1:]]
+    else:
+        inp = "bulk:%s %d %s %d %s\n" % (kind, len(p) + 1, " ".join(float(x).hex() for x in list(p) + [n]), len(u), " ".join(float(x).hex() for x in u))
+        rc, out = ctx.run_harness(exe, input=inp, timeout=300)
+        xs = [float.fromhex(t) for t in out.split()[3:]]
+    if len(xs) < n // 2:
+        return {"ok": False, "why": "only %d of %d samples returned" % (len(xs), n), "n": len(xs)}
+    ks = ks_stat(xs, cdf)
+    z = (sum(xs) / len(xs) - mean) / (sd / math.sqrt(len(xs))) if sd > 0 else 0.0
+    res = {"sampler": kind, "params": list(p), "n": len(xs), "sqrt_n_D": round(ks, 3), "mean_z": round(z, 2),
+           "empirical_mean": sum(xs) / len(xs), "analytic_mean": mean, "stream_seed": ctx.seed * 7919 + tag}
+    res["ok"] = ks <= 2.8 and abs(z) <= 6.0
+    return res
+
+
+def boundary_law_oracle(ctx, exe_s, exe_e):
+    """law oracle at the samplers' branch boundaries (quick and thorough)"""
+    r = ctx.rng
+    pts = [("gamma", [1.0, r.uniform(0.5, 2)]), ("gamma", [1.0 - EPS, 1.0]), ("gamma", [1.0 + 2 * EPS, r.uniform(0.5, 2)]),
+           ("gamma", [r.uniform(0.2, 0.9), 1.0]), ("gamma", [r.uniform(1.5, 6), 2.0]),
+           ("exponential", [r.uniform(0.5, 5)]), ("radial", [r.uniform(0.5, 10)]), ("reciprocal", [0.5, r.uniform(2, 50)])]
+    rep = []
+    for i, (k, p) in enumerate(pts):
+        res = law_oracle(ctx, exe_s, k, p, tag=i)
+        rep.append(res)
+        if not res["ok"]:
+            ctx.violation("law", "empirical law of %s%r deviates from the analytic law (sqrt(n) D = %s, mean z = %s)"
+                          % (k, p, res.get("sqrt_n_D"), res.get("mean_z")), res)
+    for i, (mean, ratio) in enumerate([(r.uniform(0.01, 1), 1.0), (r.uniform(0.01, 1), r.uniform(0.3, 3))]):
+        p = [mean, mean * mean / ratio]          # k = ratio; k = 1 exactly is the exponential case
+        res = law_oracle(ctx, exe_e, "gammadN", p, tag=100 + i)
+        rep.append(res)
+        if not res["ok"]:
+            ctx.violation("law", "empirical law of EnergyLossGammaDistribution%r deviates from Gamma(mean^2/var, var/mean) (sqrt(n) D = %s, mean z = %s)"
+                          % (p, res.get("sqrt_n_D"), res.get("mean_z")), res)
+    # Gaussian model: the truncation window (0, 2 mean] is symmetric, so the mean is kept
+    for i, rel in enumerate([0.3, 1.0]):
+        mean = r.uniform(0.01, 1)
+        n = 4000
+        rr = __import__("random").Random(ctx.seed * 7919 + 200 + i)
+        u = [max(rr.random(), 2.0 ** -60) for _ in range(12 * n)]
+        rc, out = ctx.run_harness(exe_e, input="gaussN %s %d %d %s\n" % (" ".join(float(x).hex() for x in [mean, rel * mean]), n, len(u),
+                                                                       " ".join(float(x).hex() for x in u)), timeout=300)
+        xs = [float.fromhex(t) for t in out.split()[1:]]
+        m = sum(xs) / max(1, len(xs))
+        sdev = math.sqrt(sum((x - m) ** 2 for x in xs) / max(1, len(xs) - 1)) if len(xs) > 1 else 0.0
+        z = (m - mean) / (sdev / math.sqrt(len(xs))) if sdev > 0 else 0.0
+        res = {"sampler": "gaussN", "params": [mean, rel * mean], "n": len(xs), "mean_z": round(z, 2), "ok": len(xs) >= n // 2 and abs(z) <= 6.0}
+        rep.append(res)
+        if not res["ok"]:
+            ctx.violation("law", "mean of EnergyLossGaussianDistribution(%r, %r) deviates from the requested mean (z = %.1f)" % (mean, rel * mean, z), res)
+    ctx.coverage["law_oracle_at_branch_boundaries (statistical: KS + mean z-test on 4000 samples each)"] = rep
 
 
 def run_stats(ctx, exe):
@@ -463,6 +642,7 @@ def run(ctx):
     exprs = [model_expr(k, p, u, True) for k, p, u in cases]
     mvals = ctx.coq_eval("cases", PRE, exprs, chunk=max(50, len(exprs) // 16 + 1))
     ndis = 0
+    law_done = set()
     for (k, p, u), line, mv in zip(cases, lines, mvals):
         tok = line.split()
         ctx.count("kind:" + k)
@@ -493,6 +673,14 @@ def run(ctx):
             agree = knife_edge(k, p, u, impl, model)
             if agree:
                 ctx.count("knife-edge-accepted")
+        if not agree and analytic_law(k, p) is not None and ("law", k, tuple(p)) not in law_done:
+            # broken tie: run the property's own oracle at these parameters to get a concrete failing input
+            law_done.add(("law", k, tuple(p)))
+            res = law_oracle(ctx, exe, k, p, tag=1000 + len(law_done))
+            if res is not None and not res["ok"]:
+                ctx.violation("law", "empirical law of %s%r deviates from the analytic law (sqrt(n) D = %s, mean z = %s)"
+                              % (k, p, res.get("sqrt_n_D"), res.get("mean_z")), res)
+                continue
         if not agree:
             ndis += 1
             ctx.violation("correspondence", "model and implementation differ for %s" % k,
@@ -502,7 +690,8 @@ def run(ctx):
                           no_input=True)
             if ndis > 5:
                 break
-    n_eloss = run_eloss(ctx, proofs_ok)
+    n_eloss, exe_e = run_eloss(ctx, proofs_ok)
+    boundary_law_oracle(ctx, exe, exe_e)
     if ctx.tier == "thorough":
         run_stats(ctx, exe)
     else:
